@@ -28,6 +28,31 @@ func (o *Obligation) BuildQuery(counts []*countDef) []*Term {
 	hyps := append([]*Term{}, o.Hyps...)
 	seen := map[int]*Term{}
 	subterms(append(append([]*Term{}, hyps...), o.Goal), seen)
+	axDone := map[int]bool{}
+	addAxioms := func() []*Term {
+		var out []*Term
+		names := map[string]bool{}
+		for _, t := range seen {
+			if t.Op == "app" {
+				names[t.Name] = true
+			}
+		}
+		for _, ax := range o.Axioms {
+			if axDone[ax.id] {
+				continue
+			}
+			as := map[int]*Term{}
+			subterms([]*Term{ax}, as)
+			for _, t := range as {
+				if t.Op == "app" && names[t.Name] {
+					axDone[ax.id] = true
+					out = append(out, ax)
+					break
+				}
+			}
+		}
+		return out
+	}
 	added := map[int]bool{}
 	cntDone := map[int]bool{}
 	cdByName := map[string]*countDef{}
@@ -62,6 +87,10 @@ func (o *Obligation) BuildQuery(counts []*countDef) []*Term {
 					newTerms = append(newTerms, inst)
 				}
 			}
+		}
+		if ax := addAxioms(); len(ax) > 0 {
+			hyps = append(hyps, ax...)
+			newTerms = append(newTerms, ax...)
 		}
 		if len(newTerms) == 0 {
 			break
